@@ -71,6 +71,16 @@ def extract_model():
     open(stamp, 'w').write(key)
     return os.path.join(ex, 'model_driver')
 
+def evict(prefix, suffix, keep=3):
+    """disk is limited: keep only the most recent build directories of one kind (several, because checks of
+    different trees may run side by side)"""
+    if not os.path.isdir(BUILD):
+        return
+    ds = [os.path.join(BUILD, d) for d in os.listdir(BUILD) if d.startswith(prefix) and d.endswith(suffix)]
+    ds.sort(key=lambda d: os.path.getmtime(d), reverse=True)
+    for d in ds[keep:]:
+        shutil.rmtree(d, ignore_errors=True)
+
 def cxx_build(extra='', tag='plain'):
     """always rebuilt from /repo's current working tree (cached by content hash of headers + harness)"""
     key = tree_hash([os.path.join(REPO, 'include'), os.path.join(VERIF, 'harness', 'cxx')], ('.hpp', '.cpp', '.sh', '.h')) + '-' + tag
@@ -78,9 +88,7 @@ def cxx_build(extra='', tag='plain'):
     exe = os.path.join(out, 'cxx_driver')
     if os.path.exists(exe):
         return exe
-    for d in os.listdir(BUILD) if os.path.isdir(BUILD) else []:
-        if d.startswith('cxx-') and d.endswith('-' + tag):
-            shutil.rmtree(os.path.join(BUILD, d), ignore_errors=True)
+    evict('cxx-', '-' + tag)
     rc, log = sh('%s %s %s' % (os.path.join(VERIF, 'harness', 'cxx', 'build.sh'), out, extra), timeout=900)
     if rc != 0 or not os.path.exists(exe):
         shutil.rmtree(out, ignore_errors=True)
@@ -94,9 +102,7 @@ def engines_build():
     exes = [os.path.join(out, 'engines_' + t) for t in 'fdl']
     if all(os.path.exists(e) for e in exes):
         return exes
-    for d in os.listdir(BUILD) if os.path.isdir(BUILD) else []:
-        if d.startswith('eng-'):
-            shutil.rmtree(os.path.join(BUILD, d), ignore_errors=True)
+    evict('eng-', '')
     os.makedirs(out, exist_ok=True)
     src = os.path.join(VERIF, 'harness', 'cxx', 'engines.cpp')
     procs = []
